@@ -4,6 +4,7 @@ import json
 from bodies import Tokens
 from httpfam import run_http_templates
 from storefam import gen_many, replay_store, run_templates
+import transval
 
 AUDIT = "Audit/C02.lean"
 MODULE = "Xandikos.Theorems.C02"
@@ -16,7 +17,7 @@ def run(chk):
                 "sync-collection) and compared pairwise, and every ETag is compared with the sha1-blob / md5 of the "
                 "bytes served, recomputed by the harness; store level on all four back ends, HTTP level through both "
                 "front ends; non-trivial = at least two mutating operations")
-    chk.lean_obligations(MODULE, AUDIT)
+    chk.lean_obligations(MODULE, AUDIT, regen=lambda c: transval.regen(c, ["StrongEtag"]))
     toks = Tokens()
     quick = chk.tier == "quick"
     tmpls = gen_many(chk, toks, 8 if quick else 120, 25 if quick else 35, "mixed")
